@@ -233,7 +233,7 @@ def _register(fn):
         tol="exact (values and types)",
         rule="nesting depth >= 2 with one key path touched by two open contexts, or a key inserted that did not exist (histories of up to 25 operations)",
         nontrivial_floor=0.5,
-        floors={"exit_by_exception": 0.3, "depth>=3": 0.3},
+        floors={"exit_by_exception": 0.3, "depth>=3": 0.15},
     )(fn)
     return fn
 
@@ -278,10 +278,7 @@ def check_restore_history(case, ctx):
                 dup = any(p[: len(q)] == q or q[: len(p)] == p for a, p in enumerate(paths) for q in paths[a + 1 :])
                 stats["dup"] |= dup
                 overlap = any(p[: len(q)] == q or q[: len(p)] == p for p in paths for s in open_paths for q in s)
-                features = (
-                    "inserted-key" if ins_any else "existing-keys",
-                    "same-key-twice-in-call" if dup else "distinct-keys",
-                )
+                features = ("inserted-key" if ins_any else "existing-keys",)
                 snapshot = copy.deepcopy(live)
                 mapping = {k: copy.deepcopy(v) for k, v in op["mapping"]}
                 kwargs = {k: copy.deepcopy(v) for k, v in op["kwargs"]}
